@@ -1228,6 +1228,58 @@ Proof.
   pose proof (cfg_expand_val q v) as E. rewrite He in E. congruence.
 Qed.
 
+(* ---- the scheme variables: HTTPS=on exactly on TLS connections ---- *)
+Lemma env_lookup_nonconfigured cs sv r q f el k :
+  env_list cs sv r q f = Ok el ->
+  mem k (map (fun kv => env_name (fst kv)) (q_headers q)) = false ->
+  mem k METHOD_VARS = false ->
+  env_lookup k (r_env r) = None ->
+  exists d pi, split_at cs r f = Ok (d, pi) /\ env_lookup k el = env_lookup k (env_base sv r q d pi).
+Proof.
+  intros Hel Hh Hm Hv. unfold env_list in Hel.
+  destruct (split_at cs r f) as [[d pi]|] eqn:Hs; [|discriminate].
+  cbn [rbind fst snd] in Hel. rewrite cfg_entries_map in Hel. cbn [rbind] in Hel. injection Hel as <-.
+  exists d, pi. split; [reflexivity|].
+  rewrite !env_lookup_app.
+  rewrite (env_lookup_none k (meth_of q)).
+  2:{ intros kv Hkv. apply meth_of_keys in Hkv. destruct (beq (fst kv) k) eqn:E; [|reflexivity].
+      apply beq_eq in E. rewrite E in Hkv. congruence. }
+  rewrite (env_lookup_none k (hdr_pairs q)).
+  2:{ intros kv Hkv. unfold hdr_pairs in Hkv. apply in_map_iff in Hkv as (h & <- & Hin). cbn [fst].
+      destruct (beq (env_name (fst h)) k) eqn:E; [|reflexivity]. apply beq_eq in E.
+      exfalso. unfold mem in Hh. rewrite <- not_true_iff_false in Hh. apply Hh.
+      apply existsb_exists. exists (env_name (fst h)). split; [apply in_map_iff; exists h; auto|].
+      rewrite E. apply beq_refl. }
+  rewrite env_lookup_map_vals, Hv. reflexivity.
+Qed.
+
+Lemma env_base_https sv r q d pi :
+  env_lookup (bs "HTTPS") (env_base sv r q d pi) = match q_tls q with Some _ => Some (bs "on") | None => None end /\
+  env_lookup (bs "REQUEST_SCHEME") (env_base sv r q d pi)
+    = Some (match q_tls q with Some _ => bs "https" | None => bs "http" end).
+Proof.
+  unfold env_base, env_tls.
+  destruct (last_index (q_remote q) 58); destruct pi; destruct (q_tls q) as [[ver cs]|];
+    try destruct (tbl_get ver SSL_PROTOCOLS); try destruct (tbl_get cs TLS_CIPHER_NAMES);
+    split; vm_compute; reflexivity.
+Qed.
+
+Lemma env_scheme_vars cs sv r q f el :
+  env_list cs sv r q f = Ok el ->
+  (forall k, In k [bs "HTTPS"; bs "REQUEST_SCHEME"] ->
+     mem k (map (fun kv => env_name (fst kv)) (q_headers q)) = false /\ env_lookup k (r_env r) = None) ->
+  env_lookup (bs "HTTPS") el = match q_tls q with Some _ => Some (bs "on") | None => None end /\
+  env_lookup (bs "REQUEST_SCHEME") el = Some (match q_tls q with Some _ => bs "https" | None => bs "http" end).
+Proof.
+  intros Hel H.
+  destruct (H (bs "HTTPS")) as [Hh1 Hc1]; [left; reflexivity|].
+  destruct (H (bs "REQUEST_SCHEME")) as [Hh2 Hc2]; [right; left; reflexivity|].
+  destruct (env_lookup_nonconfigured cs sv r q f el _ Hel Hh1 eq_refl Hc1) as (d & pi & Hs & E1).
+  destruct (env_lookup_nonconfigured cs sv r q f el _ Hel Hh2 eq_refl Hc2) as (d' & pi' & Hs' & E2).
+  rewrite Hs in Hs'. injection Hs' as <- <-.
+  rewrite E1, E2. apply env_base_https.
+Qed.
+
 (* ---- which placeholders come out empty ---- *)
 Definition class_char (c : N) : bool := (c =? 62) || (c =? 60) || (c =? 126) || (c =? 63) || (c =? 36).
 Lemma vocab_no_class_char :
@@ -1260,6 +1312,7 @@ Definition absent_for (q : request) (key : bytes) : Prop :=
   (exists w, idx key 1 = Ok 63 /\ C20_Model.key_mid key = Ok w /\ C20_Model.assoc w (q_qargs q) = None) \/
   idx key 1 = Ok 60 \/
   In key (REC_KEYS ++ TLS_KEYS) \/
+  (q_tls q = None /\ In key TLS_CONN_KEYS) \/
   (exists c, idx key 1 = Ok c /\ class_char c = false /\
              C20_Model.mem key V.Gen_C20.gen_c20_vocab = false /\
              C19_Model.prefixb C19_Model.lit_label_13 key = false).
@@ -1267,7 +1320,7 @@ Definition absent_for (q : request) (key : bytes) : Prop :=
 Lemma cfg_absent_empty q key : absent_for q key -> cfg_gs q key = [].
 Proof.
   unfold cfg_gs, C20_Model.get_subst.
-  intros [(w & Hi & Hm & Hh) | [(w & Hi & Hm & Hh) | [(w & Hi & Hm & Hh) | [Hi | [Hin | (c & Hi & Hc & Hv & Hl)]]]]].
+  intros [(w & Hi & Hm & Hh) | [(w & Hi & Hm & Hh) | [(w & Hi & Hm & Hh) | [Hi | [Hin | [[Ht Hin] | (c & Hi & Hc & Hv & Hl)]]]]]].
   - unfold C20_Model.get_subst_chk. cbn [cfg_renv C20_Model.e_custom C20_Model.assoc C20_Model.e_reqh].
     rewrite Hi. cbn [rbind N.eqb Pos.eqb]. rewrite Hm. cbn [rbind]. rewrite Hh.
     rewrite (class_key_not_vocab key 62 Hi eq_refl), (class_key_not_label key 62 Hi eq_refl). reflexivity.
@@ -1281,6 +1334,8 @@ Proof.
     rewrite (class_key_not_vocab key 60 Hi eq_refl), (class_key_not_label key 60 Hi eq_refl). reflexivity.
   - cbn [REC_KEYS TLS_KEYS map app In] in Hin.
     repeat (destruct Hin as [<-|Hin]; [vm_compute; reflexivity|]). contradiction.
+  - cbn [TLS_CONN_KEYS map In] in Hin.
+    destruct Hin as [<-|[<-|[]]]; unfold C20_Model.get_subst_chk; cbn; rewrite Ht; reflexivity.
   - rewrite (C20_Proofs.unknown_placeholder_empty _ _ key c); try assumption; try reflexivity;
       intros ->; discriminate Hc.
 Qed.
